@@ -68,6 +68,10 @@ type Outcome struct {
 	Unknown   int    // reports with a severity the JSON reader does not know
 	Threshold int    // rank of the effective fail-on
 	Borrowed  int    // >= 0: linting completed but reporting failed; Counts come from that run of the same case
+	// PreLint is set when a `pint ci` run died before any check ran for a reason that is
+	// neither configuration, flags nor an empty file set, although `pint lint` completes on
+	// the very same tree: it exited non-zero without a single reported problem.
+	PreLint string
 }
 
 func (o Outcome) sevSet() string {
@@ -307,7 +311,40 @@ func execute(c Case, bin string) ([]Outcome, []RunResult, error) {
 			}
 		}
 	}
+	if c.Kind == "ci" {
+		var dead []int
+		for i, o := range outs {
+			if !o.Completed && o.Exit != 0 && (o.Discard == "other" || o.Discard == "file-syntax") && c.Runs[i].wantsJSON() {
+				dead = append(dead, i)
+			}
+		}
+		if len(dead) > 0 {
+			jp := filepath.Join(out, "lintref.json")
+			lr := RunPint(bin, work, []string{"--no-color", "--offline", "-c", ".pint.hcl", "lint", "--json", jp, "*"}, nil, jp)
+			if lr.TimedOut || lr.StartErr != nil {
+				return nil, results, fmt.Errorf("%w: lint reference run: timeout=%v err=%v", errInfra, lr.TimedOut, lr.StartErr)
+			}
+			if lr.JSONOK {
+				for _, i := range dead {
+					outs[i].PreLint = lastErrorLine(results[i].Stderr)
+				}
+			}
+		}
+	}
 	return outs, results, nil
+}
+
+func lastErrorLine(stderr string) string {
+	lines := strings.Split(strings.TrimRight(stderr, "\n"), "\n")
+	for i := len(lines) - 1; i >= 0; i-- {
+		if strings.Contains(lines[i], "Execution completed with error(s)") {
+			return lines[i]
+		}
+	}
+	if len(lines) > 0 {
+		return lines[len(lines)-1]
+	}
+	return "(empty stderr)"
 }
 
 // oracle applies the reference and the metamorphic relations.
@@ -326,6 +363,10 @@ func oracle(c Case, outs []Outcome, results []RunResult) error {
 	}
 	var decided []dec
 	for i, o := range outs {
+		if o.PreLint != "" {
+			return fmt.Errorf("run %d (ci fail-on=%q): exit status %d although no problem was reported: `pint ci` died before any check ran, for a reason that is neither configuration, flags nor an empty file set, on a tree that `pint lint *` handles (it completed and wrote its JSON report)\n--- last error ---\n%s",
+				i, c.Runs[i].FailOn, o.Exit, o.PreLint)
+		}
 		if !o.Completed || o.Unknown > 0 || o.Threshold < 0 {
 			continue
 		}
@@ -440,10 +481,6 @@ func genCICase(t *rapid.T) Case {
 	c := Case{Kind: "ci"}
 	o := lintOpts()
 	o.Symlinks = false
-	// `pint ci` on HEAD cannot read a file with a line over 64 KiB at all ("failed to run git
-	// blame ...: bufio.Scanner: token too long", before any check runs), so such runs would only
-	// be discarded
-	o.LongLine = false
 	branch := GenInput(t, o)
 	c.Input = branch
 	// base: per branch file keep / other content / absent; plus files deleted on the branch
